@@ -509,7 +509,7 @@ Definition tail_x (s : system) (es0 : list ieq) (voi : option vref) (ivs2 : list
   match loop s (loop_fuel es0) 1 false (mkCs ivs2 0 0) es0 with
   | None => (OutOfFuel, false)
   | Some (st, es1) =>
-      let r := finish s voi (cs_ivs st) es1 (cs_vidx st) in
+      let r := finish s voi (cs_ivs st) (map (nla_ext_deps nla_dep_fix (cs_ivs st)) es1) (cs_vidx st) in
       (Done r, valid_type (r_type r) && existsb iv_external ivs2)
   end.
 
@@ -533,7 +533,7 @@ Definition spec_x (s : system) (marks : list xmark) : outcome * bool :=
 Theorem analyse_x_spec : forall s marks, marks_in_range s marks ->
   (xr_outcome (analyse_x true s marks), xr_has_ext (analyse_x true s marks)) = spec_x s marks.
 Proof.
-  intros s marks Hr. unfold analyse_x, spec_x.
+  intros s marks Hr. unfold analyse_x, analyse_xg, spec_x. cbn [andb].
   destruct (negb (resolvable s)); [reflexivity|].
   destruct (build s) as [[ivs0 es0]|] eqn:Eb; [|reflexivity].
   destruct (check_inits s ivs0 0 s) as [|i0 ir0]; [|reflexivity].
@@ -626,7 +626,7 @@ Theorem analyse_x_messages : forall s marks ivs0 es0,
   xr_messages (analyse_x true s marks) =
   foreign_messages marks ++ flat_map (entry_msg s (vs_ivs (analyse_asts s ivs0 es0))) (pev_of s ivs0 marks []).
 Proof.
-  intros s marks ivs0 es0 Hres Eb Eci Ei. unfold analyse_x. rewrite Hres, Eb, Eci. cbn [negb].
+  intros s marks ivs0 es0 Hres Eb Eci Ei. unfold analyse_x, analyse_xg. rewrite Hres, Eb, Eci. cbn [negb].
   destruct (fold_left (mark_step s) marks (ivs0, [], [])) as [[ivs1 pe] xi1] eqn:Em.
   pose proof (build_plain _ _ _ Eb) as Hplain.
   assert (Hne : Forall (fun v => iv_external v = false) ivs0).
